@@ -67,7 +67,8 @@ def w_sweep(elements):
     evs = []
     t = G["t"]
     rnd = random.Random(17)
-    pool = list(valtrace.UNICODE_POOL) + [None] + [c02.gen(c, "", rnd) for c in c02.GEN if c != "SURROGATE"] \
+    # (strings with a lone surrogate included: a JSON document can carry one, and the library has an error of its own for them)
+    pool = list(valtrace.UNICODE_POOL) + [None] + [c02.gen(c, "", rnd) for c in c02.GEN] + ["lone\ud800surrogate", "\udfff"] \
         + [c02.gen("INT", b, rnd) for b in c02.INT_BUCKET] + [c02.gen("DEC", b, rnd) for b in c02.DEC_BUCKET]
     odd = perturbed()
     for ei, el in enumerate(elements):
@@ -330,4 +331,4 @@ def run(rep, tier, seed):
     rep.cov["rule"] = "one event per tree (per-node and whole-tree validation, both modes); distinct by base + mutation list; counts of error codes / exception kinds exercised are in the evidence"
     rep.assumptions += ["nesting depth <= 100 (deeper trees exhaust the interpreter's recursion limit: outside the claim)",
                         "element names and content are str or None (set through the public API); attribute values may be any object",
-                        "lone surrogates are not Unicode text and are not generated here"]
+                        "strings with lone surrogates (what a JSON document can carry) are part of 'any tree whatsoever': judged for totality like any other text"]
